@@ -429,11 +429,48 @@ type verdict struct {
 	accepted  bool
 	class     string // outcome class for the coverage tables
 	modelBug  string // non-empty: analyse() and refage.Dearmor disagree
+	reason    string // first deviation of the text from the grammar, "valid" if none
 }
 
 // judge decides one execution: the reader was given text and delivered out
-// followed by err (io.EOF = accepted through to the end).
-func judge(text, out []byte, err error) (v verdict) {
+// followed by err (io.EOF = accepted through to the end); after holds the
+// results of the further Reads made once err had been returned.
+func judge(text, out []byte, err error, after []afterRead) (v verdict) {
+	v = judgeFirst(text, out, err)
+	if v.key != "" || err == nil {
+		return v
+	}
+	class := v.reason
+	for i, a := range after {
+		var ae *armor.Error
+		kind := ""
+		switch {
+		case err == io.EOF && a.n == 0 && a.err == io.EOF:
+		case err == io.EOF && a.n > 0:
+			kind = "data-after-eof"
+		case err == io.EOF:
+			kind = "error-after-eof"
+		case a.n > 0:
+			kind = "data-after-rejection"
+		case a.err == nil:
+			kind = "nil-error-after-rejection"
+		case a.err == io.EOF:
+			kind = "eof-after-rejection"
+		case !errors.As(a.err, &ae):
+			kind = fmt.Sprintf("untyped-error-after-rejection:%T", a.err)
+		}
+		if kind != "" {
+			v.key = kind + ":" + class
+			v.what = fmt.Sprintf("the reader returned %v; Read #%d after that returned (%d, %v) — a reader that has failed must keep failing with an *armor.Error and release no bytes, a reader that has ended must keep returning (0, io.EOF)", err, i+1, a.n, a.err)
+			v.class = "AFTER-END:" + kind
+			return v
+		}
+	}
+	return v
+}
+
+// judgeFirst decides the execution up to and including the first error.
+func judgeFirst(text, out []byte, err error) (v verdict) {
 	v.accepted = err == io.EOF
 	uni := hasUnicodeWS(text)
 	mtext := text
@@ -458,6 +495,7 @@ func judge(text, out []byte, err error) (v verdict) {
 	if reason == "" && !inModel && !grey {
 		reason = "unclassified"
 	}
+	v.reason = reasonOr(reason, "valid")
 
 	if v.accepted {
 		switch {
